@@ -570,3 +570,312 @@ Proof.
     replace (negb (has EXP_after_operand PS_RParen)) with false by reflexivity.
     reflexivity.
 Qed.
+
+(* ================================================================== Part 5 *)
+(* ---- character facts (over the generated isdecimal table) *)
+Lemma existsb_find {A} (f : A -> bool) l : existsb f l = true -> exists z, find f l = Some z.
+Proof.
+  induction l as [|x l IH]; cbn; [discriminate|]. destruct (f x); [eexists; reflexivity|exact IH].
+Qed.
+
+Lemma is_number_digit c : is_number c = true -> digit_value c = Some (digit_of c).
+Proof.
+  unfold is_number, digit_of, digit_value. intros H. apply existsb_find in H. destruct H as [z Hz].
+  rewrite Hz. reflexivity.
+Qed.
+
+Ltac char_case H c :=
+  let E := fresh "E" in
+  match type of H with
+  | (c =? ?k)%N = true => apply N.eqb_eq in H; subst c
+  end.
+
+Lemma ws_cases c : is_white_space c = true -> c = c_space \/ c = c_tab \/ c = c_nbsp.
+Proof.
+  unfold is_white_space. intros H. apply orb_true_iff in H. destruct H as [H|H].
+  - apply orb_true_iff in H. destruct H as [H|H]; apply N.eqb_eq in H; auto.
+  - apply N.eqb_eq in H; auto.
+Qed.
+
+Lemma number_not_ws c : is_number c = true -> is_white_space c = false.
+Proof.
+  intros H. destruct (is_white_space c) eqn:E; [|reflexivity].
+  apply ws_cases in E. destruct E as [-> | [-> | ->]]; vm_compute in H; discriminate.
+Qed.
+
+Lemma number_not_dot c : is_number c = true -> (c =? c_dot)%N = false.
+Proof.
+  intros H. destruct (c =? c_dot)%N eqn:E; [|reflexivity]. apply N.eqb_eq in E. subst c.
+  vm_compute in H. discriminate.
+Qed.
+
+Lemma operator_cases c : is_operator c = true ->
+  c = c_plus \/ c = c_dash \/ c = c_star \/ c = c_slash \/ c = c_bslash.
+Proof.
+  unfold is_operator. intros H.
+  repeat (apply orb_true_iff in H; destruct H as [H|H]); apply N.eqb_eq in H; auto 6.
+Qed.
+
+Lemma number_not_operator c : is_number c = true -> is_operator c = false.
+Proof.
+  intros H. destruct (is_operator c) eqn:E; [|reflexivity].
+  apply operator_cases in E. destruct E as [-> | [-> | [-> | [-> | ->]]]]; vm_compute in H; discriminate.
+Qed.
+
+(* ---- spans *)
+Lemma spanw_le1 p s : spanw p s <= length s.
+Proof. induction s as [|c s IH]; cbn; [lia|]. destruct (p c); cbn; lia. Qed.
+
+Lemma spanw_app_all p l : forall s,
+  Forall (fun c => p c = true) l -> spanw p (l ++ s) = length l + spanw p s.
+Proof.
+  induction l as [|c l IH]; intros s H; cbn [app spanw length]; [reflexivity|].
+  inversion H; subst. rewrite H2. rewrite IH by assumption. reflexivity.
+Qed.
+
+Definition head_not (p : char -> bool) (s : str) : Prop :=
+  match s with c :: _ => p c = false | [] => True end.
+
+Lemma spanw_head_not p s : head_not p s -> spanw p s = 0.
+Proof. destruct s as [|c s]; cbn; [reflexivity|]. intros ->. reflexivity. Qed.
+
+Lemma spanw_exact p l s : Forall (fun c => p c = true) l -> head_not p s -> spanw p (l ++ s) = length l.
+Proof. intros H1 H2. rewrite spanw_app_all by assumption. rewrite spanw_head_not by assumption. lia. Qed.
+
+Lemma spanw_spec p s : Forall (fun c => p c = true) (firstn (spanw p s) s) /\ head_not p (skipn (spanw p s) s).
+Proof.
+  induction s as [|c s IH]; cbn [spanw]; [split; [constructor|exact I]|].
+  destruct (p c) eqn:E; cbn [firstn skipn head_not].
+  - destruct IH as [A B]. split; [constructor; assumption|exact B].
+  - split; [constructor|exact E].
+Qed.
+
+Lemma skipn_app_exact {A} (l s : list A) : skipn (length l) (l ++ s) = s.
+Proof. induction l; cbn; auto. Qed.
+Lemma firstn_app_exact {A} (l s : list A) : firstn (length l) (l ++ s) = l.
+Proof. induction l; cbn; [reflexivity|]. f_equal. assumption. Qed.
+
+(* ---- number literals *)
+Definition dstep (a : N) (c : char) : N := (a * 10 + digit_of c)%N.
+
+Lemma float_acc_digits ds : forall s m dot k nd,
+  Forall (fun c => is_number c = true) ds ->
+  float_acc (ds ++ s) m dot k nd =
+  float_acc s (fold_left dstep ds m) dot (if dot then k + length ds else k) (nd + length ds).
+Proof.
+  induction ds as [|c ds IH]; intros s m dot k nd H; cbn [app fold_left length].
+  - destruct dot; f_equal; lia.
+  - inversion H; subst. cbn [float_acc]. rewrite (number_not_dot _ H2), (is_number_digit _ H2).
+    rewrite IH by assumption. unfold dstep at 2. destruct dot; f_equal; lia.
+Qed.
+
+Lemma all_digits_len ds : all_digits ds -> length ds <> 0.
+Proof. intros [H _]. destruct ds; cbn; congruence. Qed.
+
+Lemma numlit_float lit d : NumLit lit d -> float_of_str lit = Some d.
+Proof.
+  unfold float_of_str. destruct 1 as [ds H|ds fs H1 H2|fs H].
+  - rewrite <- (app_nil_r ds) at 1. rewrite float_acc_digits by apply H. cbn [float_acc].
+    pose proof (all_digits_len _ H). destruct (Nat.eqb_spec (0 + length ds) 0); [lia|]. reflexivity.
+  - rewrite float_acc_digits by apply H1. cbn [float_acc]. rewrite N.eqb_refl.
+    rewrite <- (app_nil_r fs) at 1. rewrite float_acc_digits by apply H2. cbn [float_acc].
+    pose proof (all_digits_len _ H2). destruct (Nat.eqb_spec (0 + length ds + length fs) 0); [lia|].
+    unfold digits_value. rewrite fold_left_app. reflexivity.
+  - cbn [float_acc]. rewrite N.eqb_refl.
+    rewrite <- (app_nil_r fs) at 1. rewrite float_acc_digits by apply H. cbn [float_acc].
+    pose proof (all_digits_len _ H). destruct (Nat.eqb_spec (0 + length fs) 0); [lia|]. reflexivity.
+Qed.
+
+Definition num_sep (rest : str) : Prop :=
+  match rest with c :: _ => is_number c = false /\ c <> c_dot | [] => True end.
+
+Lemma num_sep_head rest : num_sep rest -> head_not is_number rest /\ starts_with_c c_dot rest = false.
+Proof.
+  destruct rest as [|c r]; cbn; [auto|]. intros [A B]. split; [exact A|].
+  destruct (c =? c_dot)%N eqn:E; [apply N.eqb_eq in E; contradiction|reflexivity].
+Qed.
+
+Lemma digits_head ds s : all_digits ds -> starts_with_c c_dot (ds ++ s) = false.
+Proof.
+  intros [Hne H]. destruct ds as [|c ds]; [congruence|]. inversion H; subst. cbn. apply number_not_dot. assumption.
+Qed.
+
+Lemma consume_number_lit lit d rest :
+  NumLit lit d -> num_sep rest -> consume_number (lit ++ rest) = Some (length lit).
+Proof.
+  intros HL Hsep. apply num_sep_head in Hsep. destruct Hsep as [Hh Hd].
+  unfold consume_number. destruct HL as [ds H|ds fs H1 H2|fs H].
+  - rewrite (digits_head _ _ H). cbn [andb skipn].
+    rewrite spanw_exact by (try apply H; assumption).
+    pose proof (all_digits_len _ H). destruct (Nat.eqb_spec (length ds) 0); [lia|]. cbn [negb].
+    rewrite skipn_app_exact. rewrite Hd. reflexivity.
+  - rewrite <- app_assoc. rewrite (digits_head _ _ H1). cbn [andb skipn].
+    assert (Hs : spanw is_number (ds ++ (c_dot :: fs) ++ rest) = length ds).
+    { apply spanw_exact; [apply H1|]. reflexivity. }
+    rewrite Hs. pose proof (all_digits_len _ H1). destruct (Nat.eqb_spec (length ds) 0); [lia|]. cbn [negb].
+    rewrite skipn_app_exact. cbn [app starts_with_c skipn]. rewrite N.eqb_refl.
+    rewrite spanw_exact by (try apply H2; assumption).
+    pose proof (all_digits_len _ H2). destruct (Nat.eqb_spec (length fs) 0); [lia|]. cbn [negb].
+    f_equal. rewrite app_length. cbn [length]. lia.
+  - cbn [app starts_with_c]. rewrite N.eqb_refl. cbn [skipn andb].
+    rewrite spanw_exact by (try apply H; assumption).
+    pose proof (all_digits_len _ H). destruct (Nat.eqb_spec (length fs) 0); [lia|]. cbn [negb length].
+    reflexivity.
+Qed.
+
+Lemma consume_number_none c s :
+  (c =? c_dot)%N = false -> is_number c = false -> consume_number (c :: s) = None.
+Proof.
+  intros H1 H2. unfold consume_number. cbn [starts_with_c]. rewrite H1. cbn [andb skipn spanw]. rewrite H2.
+  reflexivity.
+Qed.
+
+(* ---- one round of the loop *)
+Lemma scan_spell t lit rest :
+  Spell t lit -> Sep t rest ->
+  exists p, scan (lit ++ rest) = Some (p, length lit) /\ forall st, pstep st p = tstep st t.
+Proof.
+  intros HS Hsep. destruct HS as [lit d HL|o| |].
+  - exists (PNum lit). split.
+    + unfold scan. rewrite (consume_number_lit _ _ _ HL) by (destruct rest; exact Hsep).
+      rewrite firstn_app_exact. reflexivity.
+    + intros st. cbn [pstep tstep]. rewrite (numlit_float _ _ HL). reflexivity.
+  - exists (POp (op_char o)). split; [|reflexivity].
+    unfold scan. cbn [app]. rewrite consume_number_none by (destruct o; reflexivity).
+    destruct o; reflexivity.
+  - exists PLParen. split; [|reflexivity].
+    unfold scan. cbn [app]. rewrite consume_number_none by reflexivity. reflexivity.
+  - exists PRParen. split; [|reflexivity].
+    unfold scan. cbn [app]. rewrite consume_number_none by reflexivity. reflexivity.
+Qed.
+
+Lemma spell_head_not_ws t lit : Spell t lit -> lit <> [] /\ head_not is_white_space lit.
+Proof.
+  destruct 1 as [lit d HL|o| |].
+  - destruct HL as [ds [Hne H]|ds fs [Hne H] _|fs _].
+    + destruct ds as [|c ds]; [congruence|]. inversion H; subst. split; [discriminate|]. apply number_not_ws. assumption.
+    + destruct ds as [|c ds]; [congruence|]. inversion H; subst. split; [discriminate|]. apply number_not_ws. assumption.
+    + split; [discriminate|reflexivity].
+  - split; [discriminate|]. destruct o; reflexivity.
+  - split; [discriminate|reflexivity].
+  - split; [discriminate|reflexivity].
+Qed.
+
+Lemma parse_loop_skip l : forall s st, parse_loop (length l) (l ++ s) st = parse_loop 0 s st.
+Proof. induction l as [|x l IH]; intros s st; cbn [length app]; [reflexivity|]. cbn [parse_loop]. apply IH. Qed.
+
+Lemma consume_number_bounds s n : consume_number s = Some n -> 1 <= n <= length s.
+Proof.
+  unfold consume_number. destruct s as [|c s]; [cbn; discriminate|].
+  cbn [starts_with_c]. destruct (c =? c_dot)%N eqn:Ed.
+  - cbn [skipn andb].
+    pose proof (spanw_le1 is_number s) as L1.
+    destruct (Nat.eqb_spec (spanw is_number s) 0) as [E0|E0]; cbn [negb].
+    + discriminate.
+    + intros H. inversion H; subst. cbn [length]. lia.
+  - cbn [skipn andb].
+    pose proof (spanw_le1 is_number (c :: s)) as L1.
+    destruct (Nat.eqb_spec (spanw is_number (c :: s)) 0) as [E0|E0]; cbn [negb]; [discriminate|].
+    set (d2 := spanw is_number (c :: s)) in *.
+    assert (L2 : length (skipn d2 (c :: s)) = length (c :: s) - d2) by apply skipn_length.
+    clearbody d2. cbn [length] in *.
+    destruct (skipn d2 (c :: s)) as [|c3 s3]; cbn [starts_with_c].
+    + intros H. inversion H; subst. lia.
+    + destruct (c3 =? c_dot)%N.
+      * pose proof (spanw_le1 is_number s3) as L3. cbn [length] in L2.
+        destruct (Nat.eqb_spec (spanw is_number s3) 0) as [E3|E3]; cbn [negb]; [discriminate|].
+        intros H. inversion H; subst. lia.
+      * intros H. inversion H; subst. lia.
+Qed.
+
+Lemma scan_bounds s t n : scan s = Some (t, n) -> 1 <= n <= length s.
+Proof.
+  unfold scan. destruct (consume_number s) as [k|] eqn:E.
+  - intros H. inversion H; subst. apply consume_number_bounds. exact E.
+  - destruct s as [|c s]; [discriminate|].
+    destruct (is_operator c); [intros H; inversion H; subst; cbn; lia|].
+    destruct (c =? c_lparen)%N; [intros H; inversion H; subst; cbn; lia|].
+    destruct (c =? c_rparen)%N; [intros H; inversion H; subst; cbn; lia|discriminate].
+Qed.
+
+Lemma parse_loop_step s st :
+  s <> [] ->
+  parse_loop 0 s st =
+  match scan (skipn (spanw is_white_space s) s) with
+  | None => math_err
+  | Some (t, n) => let* st' := pstep st t in parse_loop 0 (skipn (spanw is_white_space s + n) s) st'
+  end.
+Proof.
+  destruct s as [|c s']; [congruence|]. intros _. cbn [parse_loop].
+  set (nws := spanw is_white_space (c :: s')).
+  destruct (scan (skipn nws (c :: s'))) as [[t n]|] eqn:Es; [|reflexivity].
+  destruct (pstep st t) as [st'| | |]; cbn [bind]; try reflexivity.
+  apply scan_bounds in Es. rewrite skipn_length in Es. cbn [length] in Es.
+  set (m := nws + n - 1).
+  assert (Hm : m <= length s') by (unfold m; lia).
+  replace (nws + n) with (S m) by (unfold m; lia). cbn [skipn].
+  rewrite <- (firstn_skipn m s') at 1.
+  rewrite <- (firstn_length_le s' Hm) at 1.
+  apply parse_loop_skip.
+Qed.
+
+(* a string that spells a token list is read by the loop as that token list *)
+Lemma lex_run s ts : Lex s ts -> forall st, parse_loop 0 s st = trun st ts.
+Proof.
+  induction 1 as [|ws lit t rest ts Hws HS Hsep HL IH]; intros st; [reflexivity|].
+  destruct (spell_head_not_ws _ _ HS) as [Hne Hh].
+  destruct (scan_spell _ _ rest HS Hsep) as (p & Hscan & Hp).
+  rewrite parse_loop_step.
+  2:{ destruct ws; cbn; [|discriminate]. destruct lit; cbn; [congruence|discriminate]. }
+  assert (Hn : spanw is_white_space (ws ++ lit ++ rest) = length ws).
+  { apply spanw_exact; [exact Hws|]. destruct lit; [congruence|exact Hh]. }
+  rewrite Hn. rewrite skipn_app_exact. rewrite Hscan. rewrite Hp. cbn [trun].
+  destruct (tstep st t) as [st'| | |]; cbn [bind]; try reflexivity.
+  rewrite <- IH. f_equal.
+  rewrite app_assoc. rewrite <- app_length. apply skipn_app_exact.
+Qed.
+
+(* ================================================================== Part 6 *)
+Lemma postfix_nonempty e : forall d, postfix d e <> [].
+Proof.
+  induction e as [v|e IH|e IH|o l IHl r IHr|e IH]; intros d; cbn [postfix]; try apply IH.
+  - discriminate.
+  - intros H. apply app_eq_nil in H. destruct H; discriminate.
+  - intros H. apply app_eq_nil in H. destruct H as [_ H]. apply app_eq_nil in H. destruct H; discriminate.
+Qed.
+
+(* parse() of a well-formed string is the postfix code of the tree its priorities denote *)
+Theorem parse_is_postfix s ts e :
+  Lex s ts -> Parses 0 ts e -> parse s = Ok (postfix 0 (regroup e)).
+Proof.
+  intros HL HP. apply Parses_wfD in HP. destruct HP as (_ & Hwf & Ht). subst ts.
+  unfold parse. rewrite (lex_run _ _ HL). unfold init_state.
+  change 0%Z with (10 * Z.of_nat 0)%Z at 1.
+  rewrite trun_toks by (left; reflexivity). cbn [bind priority ptokens app].
+  change (10 * Z.of_nat 0)%Z with 0%Z. cbn [Z.ltb Z.compare andb].
+  rewrite <- flat_regroup. rewrite order_is_postfix; [reflexivity|].
+  apply (wf_regroup e 0 Hwf).
+Qed.
+
+Definition outcome (o : option Qc) : res (option Qc) :=
+  match o with Some v => Ok (Some v) | None => zero_div end.
+
+Lemma evaluate_tree s e' :
+  parse s = Ok (postfix 0 e') -> evaluate QcNum s = outcome (eval e').
+Proof.
+  intros HP. unfold evaluate. rewrite HP. cbn [bind].
+  pose proof (postfix_nonempty e' 0) as Hne.
+  destruct (postfix 0 e') as [|t l] eqn:E; [congruence|]. rewrite <- E.
+  rewrite <- (app_nil_r (postfix 0 e')). rewrite rpn_eval. rewrite <- eval_evalG.
+  destruct (eval e'); reflexivity.
+Qed.
+
+(* evaluate() of a well-formed, covered expression is its arithmetic value (exact rationals;
+   the float rounding of the implementation is outside the theorem) *)
+Theorem evaluate_correct s e :
+  WellFormed s e -> covered e -> evaluate QcNum s = outcome (eval e).
+Proof.
+  intros (ts & HL & HP) Hc.
+  rewrite (evaluate_tree s (regroup e)); [|eapply parse_is_postfix; eassumption].
+  rewrite regroup_value by exact Hc. reflexivity.
+Qed.
